@@ -533,9 +533,9 @@ Fixpoint file_restore (fixed ov : bool) (tl : list (gkey * N)) (s : file_store) 
            | None => file_restore fixed ov rest s
            | Some c2 =>
                (* a second name for the very file the content is read from: os.Create truncates
-                  the source before it is copied *)
+                  the source before it is copied (an empty file stays what it was) *)
                let c2 := match get N.eqb (k_dig k) (f_d2p s) with
-                         | Some p => if p =? path_of n then mkBlob 0 0 [] 0 [] else c2
+                         | Some p => if (p =? path_of n) && negb (b_len c2 =? 0) then mkBlob 0 0 [] 0 [] else c2
                          | None => c2
                          end in
                match file_named_push fixed ov s k n c2 with
